@@ -23,7 +23,7 @@ THEOREMS = ["hint_roundtrip", "writeTo_too_long", "enc_bytes", "payload_magic_sa
             "placeAt_correct", "offset_js", "offset_js_points_at_text",
             "pending_flushed_by_write", "write_without_pending", "setPos_last_wins", "every_setpos_reported_counterexample", "printf_hint_first",
             "catch_restores", "stmt_position_exact", "alternating_positions_reported", "stmts_all_mapped",
-            "rwItems_sub", "minify_keeps_mappings", "normalize_full", "name_resolves", "normalize_localmap",
+            "rwItems_sub", "minify_keeps_mappings", "mapping_uses_current_fileset", "stale_cache_counterexample", "normalize_full", "name_resolves", "normalize_localmap",
             "normalize_partial_before_repair", "normalize_counterexample", "normalize_counterexample_sibling",
             "normalize_counterexample_modcache", "normalize_counterexample_panic", "normalize_prefix_roots_ok", "offset_js_counterexample_before_repair"]
 
@@ -305,6 +305,43 @@ def js_tie(chk, tier):
     spec = C.run_driver(PID, [o.replace("srcmap js ", "srcmap jsspec ", 1) for o in ops])
     chk.compare("js-offset", ops, impl, model, spec=spec,
                 kind=lambda o, c: "js:minify=%s" % o.split()[5])
+    return len(ops)
+
+
+def fsseq_tie(chk, tier):
+    """one real Filter, a SEQUENCE of FileSets with overlapping position numbers (what WritePkgCode does per package)"""
+    rng = chk.rng
+    poses = list(range(0, 130))
+    enc = build_streams([[{"p": p} for p in poses]])[0]
+    hint = {p: e[0] for p, e in zip(poses, enc)}
+    dict_arg = ",".join("%s=%d" % (e[2], p) for p, e in zip(poses, enc))
+    names = ["runtime.go", "dep.go", "main.go", "a.go", "b.go", "util.go"]
+    ops = []
+    for _ in range(1500 if tier == "thorough" else 300):
+        segs = []
+        for _ in range(rng.choice([1, 2, 2, 3, 4])):
+            files, total = [], 0
+            for _ in range(rng.choice([1, 1, 2, 3])):
+                step = rng.choice([3, 5, 7, 11])
+                size = step * rng.randrange(1, 9) + rng.randrange(1, step)       # never a multiple of step
+                files.append((rng.choice(names), size, step))
+                total += size + 1
+            chunks, cur = [], b""
+            for _ in range(rng.randrange(1, 7)):
+                k = rng.random()
+                pos = 0 if k < 0.08 else rng.randrange(1, total + 3) if k < 0.9 else rng.randrange(1, 129)
+                cur += hint[min(pos, 129)] + bytes(rand_code(rng, 6)) + b"x"    # at least one byte between two hints
+                if rng.random() < 0.4:
+                    chunks.append(cur)
+                    cur = b""
+            chunks.append(cur)
+            segs.append("%s@%s" % ("/".join("%s:%d:%d" % f for f in files), chunks_arg(chunks)))
+        ops.append("srcmap fsseq %s %s" % (";".join(segs), dict_arg))
+    impl = C.run_gvh_lines(["lines"], ops, name="gvh_c19")
+    if any(a.startswith("harness-error") for a in impl):
+        raise RuntimeError("gvh_c19 fsseq: " + [a for a in impl if a.startswith("harness-error")][0])
+    model = C.run_driver(PID, ops)
+    chk.compare("filter-fileset-sequence", ops, impl, model, kind=lambda o, c: "fsseq:segments=%d" % (o.split()[2].count(";") + 1))
     return len(ops)
 
 
@@ -951,7 +988,7 @@ def prog_tie(chk, tier):
             chk.add_mismatch("programs", json.dumps({"program": job["id"], "minify": job["minify"], "localmap": job["localmap"],
                                                      "what": what, "files": job["files"]}),
                              impl=detail, spec="C19 program-level obligation '%s' holds" % what, signature=sig)
-    nl = layout_tie(chk, tier, stats)
+    nl = layout_tie(chk, tier, stats) + multipkg_tie(chk, tier, stats)
     chk.extra["program_stats"] = dict(sorted(stats.items()))
     return len(jobs) + nl
 
@@ -1039,6 +1076,132 @@ def layout_tie(chk, tier, stats):
     return n
 
 
+def gen_multipkg(rng, proj):
+    """a GOPATH-mode program of 2-4 user packages: small single-file dependencies of different sizes (leaf packages are
+    written right after runtime), every package with marker statements (unique string literals) and a call chain that
+    ends in a run-time panic inside the innermost dependency."""
+    ndep = rng.randrange(1, 4)
+    order = list(range(ndep))
+    rng.shuffle(order)
+    files, markers, chain = {}, [], []
+    for k in range(ndep):
+        lines = ["package dep%d" % k, ""]
+        imp = k + 1 if (k + 1 < ndep and rng.random() < 0.6) else None      # some dependencies import the next one
+        if imp is not None:
+            lines += ['import "%s/dep%d"' % (proj, imp), ""]
+        for _ in range(rng.choice([0, 0, 1, 3, 8, 20])):                      # different sizes: position ranges differ
+            lines.append("// padding " + "x" * rng.randrange(0, 60))
+        lines += ["var Arr []int", "", "func F(v int) int {"]
+        for j in range(rng.randrange(1, 4)):
+            lines.append('\tprintln("d%d-m%d")' % (k, j))
+            markers.append(("dep%d/dep%d.go" % (k, k), len(lines), "d%d-m%d" % (k, j)))
+            if rng.random() < 0.5:
+                lines.append("\tv = v + %d" % (j + 1))
+        if imp is not None:
+            lines.append("\tv = dep%d.F(v)" % imp)
+        if k == 0:
+            lines.append("\tif v > 0 {")
+            lines.append("\t\tv = Arr[v] // panics")
+            chain.append(("dep0/dep0.go", len(lines)))
+            lines.append("\t}")
+        lines += ["\treturn v", "}", ""]
+        files["dep%d/dep%d.go" % (k, k)] = "\n".join(lines)
+    lines = ["package main", "", "import ("] + ['\t"%s/dep%d"' % (proj, k) for k in order] + [")", "", "func main() {", "\tv := 0"]
+    for k in order:
+        if k != 0:
+            lines.append('\tprintln("main-m%d")' % k)
+            markers.append(("main.go", len(lines), "main-m%d" % k))
+            lines.append("\tv = dep%d.F(v) - v" % k)
+    lines.append('\tprintln("main-last")')
+    markers.append(("main.go", len(lines), "main-last"))
+    lines.append("\tv = dep0.F(v + 1)")
+    chain.append(("main.go", len(lines)))
+    lines += ["\tprintln(v)", "}", ""]
+    files["main.go"] = "\n".join(lines)
+    return files, markers, chain
+
+
+def check_multipkg(job, res, files, markers, chain, proj):
+    fails = []
+    js = res["js_map"].encode()
+    jl = js.split(b"\n")
+    m, maps = decode_map(res["map"])
+    order = sorted(((mp[0], mp[1], mp[2] or "", mp[3], mp[4], mp[5]) for mp in maps), key=lambda x: (x[0], x[1]))
+    want_name = lambda rel: "/%s/%s" % (proj, rel)
+    # every user file appears in "sources"
+    for rel in files:
+        if want_name(rel) not in m["sources"]:
+            fails.append(("user-file-missing-from-sources", "%s is not in sources %s" % (want_name(rel), [s_ for s_ in m["sources"] if proj in s_ or "runtime" in s_])))
+    # every marker statement of every package maps to the right FILE and LINE
+    for rel, line, lit in markers:
+        needle = b'console.log("%s");' % lit.encode()
+        at = js.find(needle)
+        if at < 0:
+            fails.append(("marker-not-in-output", lit))
+            continue
+        gl = js.count(b"\n", 0, at)
+        gc = at - (js.rfind(b"\n", 0, at) + 1)
+        mp = lookup(order, gl, gc)
+        got = None if mp is None or not mp[2] else (mp[2], mp[3] + 1)
+        if got != (want_name(rel), line) or (mp[0], mp[1]) != (gl, gc) and jl[gl][mp[1]:gc].strip(b" \t") != b"":
+            fails.append(("marker-maps-to-wrong-position", "marker %r of %s:%d (generated %d:%d) maps to %s" % (lit, rel, line, gl + 1, gc, got)))
+    # the panic's stack: innermost frame in the dependency, then main
+    frames = []
+    for ln in res["stderr"].split("\n"):
+        fm = FRAME.match(ln)
+        if fm and fm.group(2).endswith("out.js"):
+            mp = lookup(order, int(fm.group(3)) - 1, int(fm.group(4)) - 1)
+            if mp is not None and mp[2] and ("/" + proj + "/") in mp[2]:
+                frames.append((mp[2], mp[3] + 1))
+    want = [(want_name(rel), line) for rel, line in chain]
+    if [f for f in frames if f in want][:len(want)] != want or (frames and frames[0] != want[0]):
+        fails.append(("stack-frame-file-line", "user frames resolve to %s, want %s first" % (frames[:6], want)))
+    return fails
+
+
+def multipkg_tie(chk, tier, stats):
+    import shutil
+    rng = chk.rng
+    sc = C.scratch("gvc19m")
+    try:
+        gopath = os.path.join(sc, "ws")
+        jobs, infos = [], []
+        for i in range(12 if tier == "thorough" else 4):
+            proj = "mp%d" % i
+            files, markers, chain = gen_multipkg(rng, proj)
+            d = os.path.join(gopath, "src", proj)
+            for rel, src in files.items():
+                os.makedirs(os.path.dirname(os.path.join(d, rel)), exist_ok=True)
+                open(os.path.join(d, rel), "w").write(src)
+            for minify in (False, True):
+                jobs.append({"id": "%s%s" % (proj, "m" if minify else "p"), "files": files, "minify": minify, "localmap": False,
+                             "run": True, "timeout": 120, "dir": d})
+                infos.append((files, markers, chain, proj))
+        p = C.run_gvh(["prog", "-j", "4"], [json.dumps(j) for j in jobs], name="gvh_c19",
+                      extra_env={"NODE_OPTIONS": "--stack-trace-limit=100", "GOPATH": gopath, "GO111MODULE": "off", "VERIF_SCRATCH": sc})
+        if p.returncode != 0:
+            raise RuntimeError("gvh_c19 prog (multi-package) failed: " + p.stderr[-3000:])
+        results = [json.loads(l) for l in p.stdout.split("\n") if l.strip()]
+        for job, info, res in zip(jobs, infos, results):
+            if res.get("err"):
+                raise RuntimeError("multi-package program %s does not compile: %s\n%s" % (job["id"], res["err"], json.dumps(job["files"])[:1500]))
+            fails = check_multipkg(job, res, *info)
+            stats["multipkg:markers"] += len(info[1])
+            stats["multipkg:packages"] += len(info[0])
+            chk.add_case("programs", job["id"] + json.dumps(job["files"]), kindkey="prog:multipkg:%dpkgs:%s" % (len(info[0]), "minify" if job["minify"] else "plain"))
+            seen = set()
+            for what, detail in fails:
+                if what in seen:
+                    continue
+                seen.add(what)
+                chk.add_mismatch("programs", json.dumps({"program": job["id"], "layout": "multi-package GOPATH project", "minify": job["minify"],
+                                                         "what": what, "files": job["files"]}),
+                                 impl=detail, spec="C19 program-level obligation '%s' holds" % what)
+        return len(jobs)
+    finally:
+        shutil.rmtree(sc, ignore_errors=True)
+
+
 def run(tier, seed):
     chk = C.Check(PID, tier, seed)
     chk.rule = ("filter: streams = random interleavings of code chunks (no 0x08; newlines, tabs, ASCII, U+00B7, raw bytes) and "
@@ -1082,13 +1245,15 @@ def run(tier, seed):
     lap("js tie")
     n3 = ctx_tie(chk, tier)
     lap("ctx tie")
+    n6 = fsseq_tie(chk, tier)
+    lap("fileset sequence tie")
     n5 = norm_tie(chk, tier)
     lap("normalizePath tie")
     n4 = prog_tie(chk, tier)
     lap("program tie")
     chk.extra["phase_seconds"] = phases
     C.log("[C19] phases: %s" % phases)
-    chk.extra["ops"] = {"filter": n1, "js": n2, "ctx": n3, "normalizePath": n5, "program builds": n4}
+    chk.extra["ops"] = {"filter": n1, "js": n2, "ctx": n3, "normalizePath": n5, "fileset sequences": n6, "program builds": n4}
     chk.extra["exhaustive"] = False
     chk.extra["exhaustive_subspace"] = "all streams of <= 3 items over a 6-item alphabet x all admissible chunkings (<= 64 each)" if tier == "thorough" \
         else "first 43 streams (<= 2 items) of the thorough sub-space x all admissible chunkings"
